@@ -268,8 +268,22 @@ func (t *Taint) Expr(fn *ir.Func, e ast.Expr) bool {
 			return t.litRet[lit]
 		}
 		callee := fn.Callee(x)
-		if callee != nil && callee.Pkg() != nil && callee.Pkg().Path() == "slices" && callee.Name() == "Clone" && len(x.Args) == 1 {
-			return t.cfg.ElemCarries && t.Expr(fn, x.Args[0])
+		if callee != nil && callee.Pkg() != nil && (callee.Pkg().Path() == "slices" || callee.Pkg().Path() == "maps") {
+			// standard container helpers: the result holds (copies of) the operands'
+			// elements; only a few return a container that shares the first operand's storage
+			if t.cfg.ElemCarries {
+				for _, a := range x.Args {
+					if t.Expr(fn, a) {
+						return true
+					}
+				}
+				return false
+			}
+			switch callee.Name() {
+			case "Clone", "Concat", "Collect", "Sorted", "SortedFunc", "SortedStableFunc", "Values", "Keys", "All", "Repeat":
+				return false
+			}
+			return len(x.Args) > 0 && t.Expr(fn, x.Args[0])
 		}
 		if t.cfg.CallCarries != nil && t.cfg.CallCarries(fn, x) {
 			if sel, ok := x.Fun.(*ast.SelectorExpr); ok && fn.Info().Selections[sel] != nil && t.Expr(fn, sel.X) {
